@@ -219,7 +219,18 @@ fn gen_function(rng: &mut Rng) -> Function {
         addr_base: 0x1000 + 0x20 * rng.below(6),
         ..GenOpts::default()
     };
-    let f = ilgen::generate(rng, &o).f;
+    let mut f = ilgen::generate(rng, &o).f;
+    // instruction indices need not follow the order of the instructions (Block::instructions_mut is public):
+    // one function in four has blocks whose instructions were rotated
+    if rng.chance(1, 4) {
+        for b in f.blocks_mut() {
+            let n = b.instructions().len();
+            if n >= 2 && rng.bool() {
+                let k = 1 + rng.usize(n - 1);
+                b.instructions_mut().rotate_left(k);
+            }
+        }
+    }
     // the function's own address need not be its lowest instruction address (cold parts placed
     // before the entry): half of the functions are given the address of a later instruction
     if rng.bool() {
